@@ -50,18 +50,28 @@ static void sep_stub(UtestShell* shell, TestPlugin* plugin, TestResult* result)
     shell->runOneTestInCurrentProcess(plugin, *result);
 }
 
+// Collects what the runner prints.  (StringBufferTestOutput does the same in a SimpleString, which is copied on every append: a
+// vector like -r100 -vv on the probe registry then costs seconds under ASan and eats the deadline that detects real hangs.)
+class BufOutput : public TestOutput
+{
+public:
+    std::string text;
+    void printBuffer(const char* s) CPPUTEST_OVERRIDE { text += s; }
+    void flush() CPPUTEST_OVERRIDE {}
+};
+
 class RecordingRunner : public CommandLineTestRunner
 {
 public:
     std::string kinds;            // output factories called, in order
     std::string package;
-    StringBufferTestOutput* console;
+    BufOutput* console;
     RecordingRunner(int ac, const char* const* av, TestRegistry* r) : CommandLineTestRunner(ac, av, r), console(NULL) {}
-    std::string consoleText() { return console ? std::string(console->getOutput().asCharString()) : std::string(); }
+    std::string consoleText() { return console ? console->text : std::string(); }
 protected:
-    TestOutput* createTeamCityOutput() CPPUTEST_OVERRIDE { kinds += "teamcity;"; return new StringBufferTestOutput; }
-    TestOutput* createJUnitOutput(const SimpleString& p) CPPUTEST_OVERRIDE { kinds += "junit;"; package = p.asCharString(); return new StringBufferTestOutput; }
-    TestOutput* createConsoleOutput() CPPUTEST_OVERRIDE { kinds += "console;"; console = new StringBufferTestOutput; return console; }
+    TestOutput* createTeamCityOutput() CPPUTEST_OVERRIDE { kinds += "teamcity;"; return new BufOutput; }
+    TestOutput* createJUnitOutput(const SimpleString& p) CPPUTEST_OVERRIDE { kinds += "junit;"; package = p.asCharString(); return new BufOutput; }
+    TestOutput* createConsoleOutput() CPPUTEST_OVERRIDE { kinds += "console;"; console = new BufOutput; return console; }
     TestOutput* createCompositeOutput(TestOutput* a, TestOutput* b) CPPUTEST_OVERRIDE { kinds += "composite;"; return CommandLineTestRunner::createCompositeOutput(a, b); }
 };
 
